@@ -490,7 +490,7 @@ fn gen_module(id: usize, c: &Case, exp: &Exp, with_const: bool) -> String {
         let s = g.as_slice(); {read_s}"
             );
         }
-        12 if c.form >= 3 => {
+        12 if c.form == 3 || c.form == 4 => {
             // the operand is a path to a const item of a non-Copy type: accepted by both repeat forms
             // exactly as by the native [CK; n]
             let e = if c.form == 3 { format!("arr![CK; U{}]", n) } else { format!("arr![CK; {}]", n) };
